@@ -64,66 +64,82 @@ class Norm:
         return r
 
     def _iter_expr(self, e):
+        """iterator descriptor: ('range', lo, hi, step) | ('seq', array, chunk) | ('enum', d) | ('take', d, n) | ('zip', d1, d2)"""
         e = strip(e)
         if e[0] == 'call':
             n = e[1].split('#')[0]
             if n.endswith('IntoIterator>::into_iter') and len(e) == 3: return self._iter_expr(e[2])
             if n.endswith('Iterator::enumerate') and len(e) == 3:
                 r = self._iter_expr(e[2])
-                if r and r[0] == 'seq': return ('seq', r[1], r[2], True, r[4])
-                return None
+                return ('enum', r) if r else None
             if n.endswith('Iterator::take') and len(e) == 4:
                 r = self._iter_expr(e[2])
-                if r and r[0] == 'seq':
-                    b = self.n(e[3])
-                    return ('seq', r[1], b if r[2] is None else ('f', 'min', r[2], b), r[3], r[4])
-                return None
+                return ('take', r, self.n(e[3])) if r else None
             if (n.endswith('::iter') or n.endswith('::iter_mut')) and len(e) == 3:
-                return ('seq', self.n(e[2]), None, False, None)
+                return ('seq', self.n(e[2]), None)
             if (n.endswith('::chunks_exact') or n.endswith('::chunks_exact_mut') or n.endswith('::chunks') or n.endswith('::chunks_mut')) and len(e) == 4:
-                return ('seq', self.n(e[2]), None, False, (self.n(e[3]), 'exact' if 'exact' in n else 'ragged'))
+                return ('seq', self.n(e[2]), (self.n(e[3]), 'exact' if 'exact' in n else 'ragged'))
             if n.endswith('Iterator::zip') and len(e) == 4:
                 a, b = self._iter_expr(e[2]), self._iter_expr(e[3])
-                if a and b: return ('zip', a, b)
-                return None
+                return ('zip', a, b) if a and b else None
             if n.endswith('Iterator::step_by') and len(e) == 4:
                 r = self._iter_expr(e[2])
                 if r and r[0] == 'range': return ('range', r[1], r[2], self.n(e[3]))
                 return None
         if e[0] == 'agg' and e[1] == 'Range' and len(e) == 4:
             return ('range', self.n(e[2]), self.n(e[3]), ('c', 1))
-        if e[0] in ('multi', 'param', 'fld') or e[0] == 'cast':
-            # `for x in &array` / `for x in slice`
-            return ('seq', self.n(e), None, False, None)
+        if e[0] in ('multi', 'param', 'fld', 'opq'):
+            return ('seq', self.n(e), None)          # `for x in &array` / `for x in slice`
         return None
+
+    def _length(self, d):
+        if d[0] == 'range': return mk_sub(d[2], d[1]) if d[3] == ('c', 1) else ('f', 'divceil', mk_sub(d[2], d[1]), d[3])
+        if d[0] == 'seq': return ('f', 'len', d[1]) if d[2] is None else ('f', 'Div', ('f', 'len', d[1]), d[2][0])
+        if d[0] == 'enum': return self._length(d[1])
+        if d[0] == 'take':
+            inner = self._length(d[1])
+            # `take(n)` of a fixed-size scratch array: the bound that matters is n (the rules that care compare n with the array size themselves)
+            return d[2] if d[1][0] == 'seq' else ('f', 'min', inner, d[2])
+        if d[0] == 'zip': return ('f', 'min', self._length(d[1]), self._length(d[2]))
+        return ('f', '?len')
 
     def item(self, L, rest):
         """the value produced by `next()` of iterator L, projected by `rest`"""
         it = self.iterator(L)
         if it is None:
             return wrap(('f', 'item', ('v', self.T.names.get(str(L), '_%d' % L) + '#%d' % L)), self.npath(rest))
-        return self._item(it, L, tuple(rest))
+        return self._item(it, L, tuple(rest), it[0] != 'range')
 
-    def _item(self, it, L, rest):
+    def _item(self, d, L, rest, counted):
+        """counted: the loop index ('ix', L) counts from 0 (anything but a bare range)"""
         ix = ('ix', L)
-        if it[0] == 'range':
-            self.loops[L] = Loop(L, 'range', it[1], it[2], note=it[3] if len(it) > 3 and it[3] != ('c', 1) else None)
+        if d[0] == 'range':
+            if counted:
+                if L not in self.loops: self.loops[L] = Loop(L, 'count', ('c', 0), self._length(d))
+                return wrap(mk_add([d[1], ix if d[3] == ('c', 1) else mk_mul([ix, d[3]])]), self.npath(rest))
+            self.loops[L] = Loop(L, 'range', d[1], d[2], note=d[3] if d[3] != ('c', 1) else None)
             return wrap(ix, self.npath(rest))
-        if it[0] == 'seq':
-            _, arr, bound, enum, chunk = it
-            hi = bound if bound is not None else ('f', 'len', arr)
-            if chunk is not None:
-                hi = ('f', 'Div', ('f', 'len', arr), chunk[0]) if bound is None else ('f', 'min', bound, ('f', 'Div', ('f', 'len', arr), chunk[0]))
-            self.loops[L] = Loop(L, 'seq', ('c', 0), hi, array=arr, chunk=chunk)
-            elem = ('chunk', arr, chunk[0], ix) if chunk is not None else ('el', arr, ix)
-            if enum:
-                if rest[:1] == (0,): return wrap(ix, self.npath(rest[1:]))
-                if rest[:1] == (1,): return wrap(elem, self.npath(rest[1:]))
-                return wrap(('agg', 'tuple', ix, elem), self.npath(rest))
+        if d[0] == 'seq':
+            if L not in self.loops: self.loops[L] = Loop(L, 'seq', ('c', 0), self._length(d), array=d[1], chunk=d[2])
+            elem = ('chunk', d[1], d[2][0], ix) if d[2] is not None else ('el', d[1], ix)
             return wrap(elem, self.npath(rest))
-        if it[0] == 'zip':
-            if rest[:1] == (0,): return self._item(it[1], L, rest[1:])
-            if rest[:1] == (1,): return self._item(it[2], L, rest[1:])
+        if d[0] == 'take':
+            if L not in self.loops:
+                self.loops[L] = Loop(L, 'seq' if d[1][0] == 'seq' else 'count', ('c', 0), self._length(d), array=d[1][1] if d[1][0] == 'seq' else None)
+            return self._item(d[1], L, rest, True)
+        if d[0] == 'enum':
+            if L not in self.loops:
+                inner = d[1]
+                self.loops[L] = Loop(L, 'seq' if inner[0] in ('seq',) or (inner[0] == 'take' and inner[1][0] == 'seq') else 'count', ('c', 0), self._length(d),
+                                     array=inner[1] if inner[0] == 'seq' else (inner[1][1] if inner[0] == 'take' and inner[1][0] == 'seq' else None))
+            if rest[:1] == (0,): return wrap(ix, self.npath(rest[1:]))
+            if rest[:1] == (1,): return self._item(d[1], L, rest[1:], True)
+            return wrap(('agg', 'tuple', ix, self._item(d[1], L, (), True)), self.npath(rest))
+        if d[0] == 'zip':
+            if L not in self.loops: self.loops[L] = Loop(L, 'count', ('c', 0), self._length(d))
+            if rest[:1] == (0,): return self._item(d[1], L, rest[1:], True)
+            if rest[:1] == (1,): return self._item(d[2], L, rest[1:], True)
+            return wrap(('agg', 'tuple', self._item(d[1], L, (), True), self._item(d[2], L, (), True)), self.npath(rest))
         return wrap(('f', 'item', ('v', '_%d' % L)), self.npath(rest))
 
     # ---- terms
